@@ -1236,6 +1236,13 @@ func (e *SpecEnv) quantifier(kind string, n *ast.CallExpr) Term {
 		if pats := selectPatterns(inner, bv); pats != "" && len(n.Args) == 4 {
 			return Term{fmt.Sprintf("(forall ((%s %s)) (! %s %s))", bv, srt, inner, pats), SBool}
 		}
+		if len(n.Args) == 3 {
+			// typed quantifier over a recursive spec function f: trigger only on f(bound var),
+			// which keeps the unfolding of recursive definitions under control
+			if pats := specFuncPatterns(inner, bv); pats != "" {
+				return Term{fmt.Sprintf("(forall ((%s %s)) (! %s %s))", bv, srt, inner, pats), SBool}
+			}
+		}
 		return Term{fmt.Sprintf("(forall ((%s %s)) %s)", bv, srt, inner), SBool}
 	}
 	return Term{fmt.Sprintf("(exists ((%s %s)) %s)", bv, srt, And(guard, body).S), SBool}
@@ -1435,4 +1442,34 @@ func (c *FnCtx) assertAxiomsFor(pd *PredDef) {
 		}
 		c.vc.Assert(body)
 	}
+}
+
+// specFuncPatterns: applications `(spec$... bv)` of an uninterpreted spec function to exactly
+// the bound variable.
+func specFuncPatterns(body, bv string) string {
+	seen := map[string]bool{}
+	var pats []string
+	i := 0
+	for {
+		j := strings.Index(body[i:], "(spec$")
+		if j < 0 {
+			break
+		}
+		j += i
+		// function symbol runs to the next space (symbols with | quoting are skipped)
+		k := strings.IndexByte(body[j:], ' ')
+		if k < 0 {
+			break
+		}
+		rest := body[j+k+1:]
+		if strings.HasPrefix(rest, bv+")") {
+			t := body[j : j+k+1+len(bv)+1]
+			if !seen[t] {
+				seen[t] = true
+				pats = append(pats, ":pattern ("+t+")")
+			}
+		}
+		i = j + 6
+	}
+	return strings.Join(pats, " ")
 }
